@@ -28,6 +28,7 @@ func checkC11(p *Program, r *Report) {
 	}
 	sums := buildTypeSummaries(m)
 	va := buildEvalAnalysis(m)
+	callFollowsFlag(p, r, m, "C11.R7")
 	c11Args(p, r, m, sums, va)
 	c11Results(p, r, m)
 	c11Env(p, r)
